@@ -10,6 +10,7 @@
 #include <stdlib.h>
 #include <string.h>
 #include <sys/ioctl.h>
+#include <sys/stat.h>
 #include <unistd.h>
 
 #define CAP 4096 /* pipe capacity used in most runs (one page) */
@@ -471,17 +472,20 @@ static void build(void)
   }
 }
 
+#define NAFTER 4
 static long c02_n(int tier)
 {
   build();
-  return ncfgs[tier] + 3; /* + the 64 KiB set and one 2 MiB transfer */
+  return ncfgs[tier] + 3 + NAFTER; /* + the 64 KiB set and one 2 MiB transfer + writes after the reader has gone */
 }
 
 static void c02_big(int which);
+static void c02_after_epipe(int which);
 
 static void c02_run(int tier, long cfg)
 {
   build();
+  if (cfg >= ncfgs[tier] + 3) { c02_after_epipe((int) (cfg - ncfgs[tier] - 3)); return; }
   if (cfg >= ncfgs[tier]) { c02_big((int) (cfg - ncfgs[tier])); return; }
   const struct c02cfg *c = &cfgs[tier][cfg];
   /* all interleavings for short scripts and few parent calls, bounded otherwise */
@@ -536,6 +540,60 @@ static void c02_big(int which)
   if (st != 0) vk_violation("C01", "status-exact", key, "wait returned %s", hx_errname(st));
   if (got[1] != (uint32_t) size) vk_violation("C02", "bytes-lost", key, "%u of %d bytes delivered", got[1], size);
   hx_destroy(P);
+}
+
+/* the reader of stdin goes away (closes it / exits); a write is refused with the closed-stream error; then the caller opens a file of its own,
+ * which gets the lowest free descriptor number, and writes again: nothing may be accepted any more (it could not reach the child), nothing may
+ * land in the caller's file, and closing the stream must not close it */
+static void c02_after_epipe(int which)
+{
+  int child_exits = which & 1, nonblocking = (which >> 1) & 1;
+  memset(&vk_cfg, 0, sizeof vk_cfg);
+  vk_cfg.sched_on = 1;
+  vk_cfg.sched_bound = 1;
+  vk_cfg.vlimit = 24;
+  vk_cfg.hello_lite = 1;
+  snprintf(key, sizeof key, "h_c02|write-after-reader-gone|%s|%s", child_exits ? "child-exited" : "child-closed-stdin", nonblocking ? "nonblocking" : "blocking");
+  hx_desc("%s", key);
+  snprintf(key, sizeof key, "h_c02|write-after-reader-gone");
+  hx_begin();
+  vk_set_hang_hook(c02_hang);
+  memset(got, 0, sizeof got);
+  memset(eof_seen, 0, sizeof eof_seen);
+  memset(parent_closed, 0, sizeof parent_closed);
+  em = EM_PARENT;
+  merged = 0;
+  echo_script = 0;
+  reproc_options o;
+  memset(&o, 0, sizeof o);
+  o.nonblocking = nonblocking;
+  vk_script(child_exits ? "X4 ;" : "C0 ; X4");
+  P = hx_new();
+  vk_cfg.sched_on = 0;
+  int r = hx_start(P, hx_helper_argv(), o);
+  vk_cfg.sched_on = 1;
+  if (r < 0) vk_finish(OUT_INFRA, "start failed: %d", r);
+  CH = &vk_children[0];
+  int w1 = hx_write(P, (const uint8_t *) "ab", 2);
+  if (w1 != REPROC_EPIPE) vk_violation("C02", "write-to-gone-reader", key, "write returned %s although nobody can read the child's stdin any more", hx_errname(w1));
+  int mine = open("callers-own-file", O_RDWR | O_CREAT | O_TRUNC, 0644);
+  if (mine < 0) vk_finish(OUT_INFRA, "open: %s", strerror(errno));
+  struct stat st0;
+  fstat(mine, &st0);
+  int w2 = hx_write(P, (const uint8_t *) "cd", 2);
+  if (w2 >= 0) vk_violation("C02", "write-accepted-after-closed-stream", key, "after the closed-stream error a write of 2 bytes returned %d: accepted bytes that cannot reach the child", w2);
+  else if (w2 != REPROC_EPIPE) vk_violation("C02", "closed-stream-error-sticky", key, "after the closed-stream error the next write returned %s", hx_errname(w2));
+  hx_close(P, REPROC_STREAM_IN);
+  struct stat st1;
+  if (fstat(mine, &st1) < 0 || st1.st_ino != st0.st_ino) vk_violation("C05", "no-foreign-close", key, "closing stdin closed the caller's own descriptor %d", mine);
+  else if (st1.st_size != 0) vk_violation("C02", "bytes-to-foreign-descriptor", key, "%lld byte(s) written through the handle landed in the caller's own file", (long long) st1.st_size);
+  else vk_hit(CL_EPIPE_STICKY);
+  if (vk_foreign_closes || vk_double_closes) vk_violation("C05", "no-foreign-close", key, "%d foreign and %d double close(s)", vk_foreign_closes, vk_double_closes);
+  int stt = hx_wait(P, REPROC_INFINITE);
+  if (stt != 4) vk_violation("C01", "status-exact", key, "wait returned %s", hx_errname(stt));
+  vk_cfg.sched_on = 0;
+  hx_destroy(P);
+  close(mine);
 }
 
 /* ================================================================= C17 */
